@@ -30,7 +30,11 @@ struct Style {
     bool extra_part_headers = false;     // additional header lines in every part
     bool content_type_first = true;      // Content-Type line before Content-Range
     std::string ctype_param_prefix;      // e.g. " charset=x;" before boundary
-    std::string str() const { return "boundary=" + (quoted ? "\"" + boundary + "\"" : boundary) + (leading_crlf ? "" : " no-leading-crlf") + " case=" + std::to_string(header_case) + " spacing=" + std::to_string(spacing) + (extra_part_headers ? " extra-headers" : ""); }
+    int ctype_case = 0;                  // response header name: 0 "Content-Type", 1 "content-type" (HTTP/2 style), 2 "CONTENT-TYPE", 3 "Content-type"
+    int mtype_case = 0;                  // 0 "multipart/byteranges", 1 "Multipart/Byteranges", 2 "MULTIPART/BYTERANGES"
+    int bkey_case = 0;                   // 0 "boundary", 1 "Boundary", 2 "BOUNDARY"
+    bool vary_boundary = false;          // every multipart response of the session uses a different boundary (as Apache / nginx do)
+    std::string str() const { return "boundary=" + (quoted ? "\"" + boundary + "\"" : boundary) + (leading_crlf ? "" : " no-leading-crlf") + " case=" + std::to_string(header_case) + " spacing=" + std::to_string(spacing) + (extra_part_headers ? " extra-headers" : "") + (ctype_case || mtype_case || bkey_case ? " ctype-spelling=" + std::to_string(ctype_case) + std::to_string(mtype_case) + std::to_string(bkey_case) : "") + (vary_boundary ? " boundary-varies" : ""); }
 };
 static inline Style gen_style(Ctx &c, bool safe_boundary_only) {
     Style s; uint64_t k = c.draw(5);
@@ -42,6 +46,7 @@ static inline Style gen_style(Ctx &c, bool safe_boundary_only) {
     for (size_t i = 0; i < n; i++) s.boundary += rfc ? bchars[c.pick(sizeof bchars - 1)] : k == 2 ? alnum[c.pick(10)] : k == 3 ? alnum[c.pick(16)] : alnum[c.pick(62)];
     s.quoted = c.rarely(3); s.leading_crlf = !c.rarely(4); s.header_case = (int)c.draw(2); s.spacing = (int)c.draw(2);
     s.extra_part_headers = c.rarely(3); s.content_type_first = !c.rarely(3);
+    if (c.gver >= 2) { if (c.rarely(3)) { s.ctype_case = (int)c.draw(3); s.mtype_case = (int)c.draw(2); s.bkey_case = (int)c.draw(2); } s.vary_boundary = c.boolean(); }
     return s;
 }
 
@@ -55,6 +60,7 @@ struct Response {
 struct Server {
     Bytes file; int max_ranges = 1000000; Style style;
     std::vector<std::pair<std::string, int>> log;     // (range string, status)
+    unsigned multipart_responses = 0;
     Response respond(const std::string &range_str) {
         Response r; std::vector<Range> rg;
         if (!parse_ranges(range_str, rg)) { r.status = 400; log.push_back({range_str, 400}); return r; }
@@ -71,8 +77,14 @@ struct Server {
             r.header_lines.push_back("Content-Type: application/octet-stream\r\n"); r.header_lines.push_back("\r\n");
             r.body.assign(file.begin() + rg[0].s, file.begin() + e + 1);
         } else {
-            const Style &s = style;
-            r.header_lines.push_back("Content-Type: multipart/byteranges;" + s.ctype_param_prefix + " boundary=" + (s.quoted ? "\"" + s.boundary + "\"" : s.boundary) + "\r\n");
+            Style s = style;
+            if (s.vary_boundary && multipart_responses++ > 0) {   // same length, different text for every response
+                std::string tag = std::to_string(multipart_responses); std::string &bd = s.boundary;
+                for (size_t k = 0; k < tag.size() && k < bd.size(); k++) bd[bd.size() - 1 - k] = tag[tag.size() - 1 - k];
+                if (bd == style.boundary) bd[bd.size() - 1] = bd.back() == 'x' ? 'y' : 'x';
+            } else if (!s.vary_boundary) multipart_responses++;
+            static const char *ctn[] = {"Content-Type", "content-type", "CONTENT-TYPE", "Content-type"}, *mtn[] = {"multipart/byteranges", "Multipart/Byteranges", "MULTIPART/BYTERANGES"}, *bkn[] = {"boundary", "Boundary", "BOUNDARY"};
+            r.header_lines.push_back(std::string(ctn[s.ctype_case & 3]) + ": " + mtn[s.mtype_case % 3] + ";" + s.ctype_param_prefix + " " + bkn[s.bkey_case % 3] + "=" + (s.quoted ? "\"" + s.boundary + "\"" : s.boundary) + "\r\n");
             r.header_lines.push_back("\r\n");
             auto add = [&](const std::string &t) { r.body.insert(r.body.end(), t.begin(), t.end()); };
             for (size_t i = 0; i < rg.size(); i++) {
